@@ -647,6 +647,7 @@ func cmdCheck(args []string) int {
 	var knownHit []string
 	nviol := 0
 	sort.Slice(founds, func(i, j int) bool { return founds[i].viol.Class < founds[j].viol.Class })
+	reported := map[string]bool{}
 	for _, f := range founds {
 		rp, ok := confirmAndMinimise(b, m, prop, tier, f)
 		if !ok {
@@ -654,6 +655,10 @@ func cmdCheck(args []string) int {
 			exit = 2
 			continue
 		}
+		if reported[rp.Violation.Class] {
+			continue
+		}
+		reported[rp.Violation.Class] = true
 		if k := isKnown(known, prop, rp.Violation.Class); k != nil {
 			fmt.Printf("KNOWN-FINDING: property=%s %s [%s]\n", prop, k.What, k.Class)
 			knownHit = append(knownHit, k.Class)
